@@ -1022,6 +1022,54 @@ func ruleLookupGuarded(r *Run) {
 				return
 			}
 			id := c.Call.Args[1]
+			// the looked-up style and the id handed together to a helper: the helper may write the
+			// id as a reference only where it has found the style parameter non-nil
+			for _, u := range *c.Referrers() {
+				hc, ok := u.(*ssa.Call)
+				if !ok {
+					continue
+				}
+				h := staticCallee(hc)
+				if h == nil || !p.inModule(h) || len(h.Blocks) == 0 {
+					continue
+				}
+				var ps, pid *ssa.Parameter
+				for k, a := range hc.Call.Args {
+					if k >= len(h.Params) {
+						break
+					}
+					if a == ssa.Value(c) {
+						ps = h.Params[k]
+					} else if stripConv(a) == stripConv(id) {
+						pid = h.Params[k]
+					}
+				}
+				if ps == nil || pid == nil {
+					continue
+				}
+				n++
+				var bad *ssa.Store
+				allInstrs(h, func(in2 ssa.Instruction) {
+					st, ok := in2.(*ssa.Store)
+					if !ok {
+						return
+					}
+					fv, _ := fieldOfAddr(st.Addr)
+					if !isRefField(fv) || stripConv(st.Val) != ssa.Value(pid) {
+						return
+					}
+					if !inNonNilBranchOf(h, ps, st.Block()) {
+						bad = st
+					}
+				})
+				pos := hc.Pos()
+				if bad != nil {
+					pos = bad.Pos()
+				}
+				r.Check("lookup-guarded", shortName(topLevel(fn))+"→"+shortName(h), pos, bad == nil,
+					fmt.Sprintf("%s looks a style id up in the registry and hands id and result to %s: %s", shortName(topLevel(fn)), shortName(h),
+						map[bool]string{true: "the helper references the id only where the style is non-nil", false: "the helper writes the id as a style reference without having found the style non-nil — after RemoveStyle the saved body names a style that word/styles.xml (generated from the registry) does not define"}[bad == nil]))
+			}
 			for _, u := range *c.Referrers() {
 				cmp, ok := u.(*ssa.BinOp)
 				if !ok || (cmp.Op != token.EQL && cmp.Op != token.NEQ) || !(isNilConst(cmp.X) || isNilConst(cmp.Y)) || cmp.Referrers() == nil {
@@ -2980,6 +3028,542 @@ func ruleSizedByRow(r *Run) {
 		})
 	}
 	r.Count("slices_sized_by_a_row", n)
+}
+
+// ---------------------------------------------------------------------------
+// R-ROW-FOREIGN-COUNTER (C06): the mirror image of sized-by-row on the Open path.  The cells of one
+// designated row (t.Rows[0].Cells) indexed by a loop counter that is bounded by something other than
+// that row's own cell count (another row's, the widest row's, a grid built from either) needs a
+// dominating comparison of the counter with len(that row's cells): rows of an opened table differ in
+// length, and an out-of-range index is a panic inside Open instead of an error.
+// ---------------------------------------------------------------------------
+
+func ruleRowForeignCounter(r *Run) {
+	p := r.P
+	root := r.mustFunc(pkgDoc, "openFromZipReader")
+	if root == nil {
+		return
+	}
+	n := 0
+	lenArg := func(v ssa.Value) (ssa.Value, bool) {
+		lc, ok := baseVar(v).(*ssa.Call)
+		if !ok {
+			return nil, false
+		}
+		if bi, ok := lc.Call.Value.(*ssa.Builtin); !ok || bi.Name() != "len" {
+			return nil, false
+		}
+		return lc.Call.Args[0], true
+	}
+	for _, fn := range sortedFuncs(p.cgReach(root)) {
+		if !p.inModule(fn) || len(fn.Blocks) == 0 {
+			continue
+		}
+		loops := naturalLoops(fn)
+		idx := 0
+		allInstrs(fn, func(in ssa.Instruction) {
+			ia, ok := in.(*ssa.IndexAddr)
+			if !ok {
+				return
+			}
+			da, ok := rowDesignator(p, ia.X, loops)
+			if !ok {
+				return
+			}
+			ph, ok := baseVar(ia.Index).(*ssa.Phi)
+			if !ok || len(ph.Block().Instrs) == 0 {
+				return
+			}
+			isHeader := false
+			for _, l := range loops {
+				if l.Header == ph.Block() {
+					isHeader = true
+				}
+			}
+			iff, ok := ph.Block().Instrs[len(ph.Block().Instrs)-1].(*ssa.If)
+			if !isHeader || !ok {
+				return
+			}
+			cmp, ok := iff.Cond.(*ssa.BinOp)
+			if !ok || cmp.Op != token.LSS || baseVar(cmp.X) != ssa.Value(ph) {
+				return
+			}
+			n++
+			idx++
+			own := false
+			if a, ok := lenArg(cmp.Y); ok {
+				if db, ok := rowDesignator(p, a, loops); ok && db == da {
+					own = true
+				}
+			}
+			guarded := own
+			if !guarded {
+				for _, b := range fn.Blocks {
+					if len(b.Instrs) == 0 || len(b.Succs) != 2 || !b.Dominates(ia.Block()) || b == ph.Block() {
+						continue
+					}
+					i2, ok := b.Instrs[len(b.Instrs)-1].(*ssa.If)
+					if !ok {
+						continue
+					}
+					c2, ok := i2.Cond.(*ssa.BinOp)
+					if !ok {
+						continue
+					}
+					for _, pair := range [][2]ssa.Value{{c2.X, c2.Y}, {c2.Y, c2.X}} {
+						if baseVar(pair[0]) != ssa.Value(ph) {
+							continue
+						}
+						if a, ok := lenArg(pair[1]); ok {
+							if db, ok := rowDesignator(p, a, loops); ok && db == da {
+								guarded = true
+							}
+						}
+					}
+				}
+			}
+			r.Check("row-foreign-counter", fmt.Sprintf("%s:cells[%s]#%d", shortName(topLevel(fn)), stableDesignator(da), idx), ia.Pos(), guarded,
+				fmt.Sprintf("%s (on the Open path) indexes the cells of row %s with a loop counter: %s", shortName(topLevel(fn)), stableDesignator(da),
+					map[bool]string{true: "the counter is bounded by that row's own cell count", false: "the counter is bounded by something other than that row's cell count and no dominating comparison with it exists — rows of an opened table differ in length (merged cells), so the access can be out of range: Open panics instead of returning an error or a document"}[guarded]))
+		})
+	}
+	r.Count("row_cells_indexed_by_loop_counter_on_open_path", n)
+}
+
+// ---------------------------------------------------------------------------
+// R-STALE-PART (C05): one save pass regenerates the derived parts one after the other from the model.
+// A step that runs AFTER the step which serialised model field X must not write X: the part written
+// by this pass would be the stale one, the next pass writes a different one — Save followed by
+// ToBytes (or two saves) disagree about the same document.  Steps: the calls of Save/ToBytes on the
+// document receiver, in source order; X: first-level fields of Document (the part map excluded).
+// ---------------------------------------------------------------------------
+
+func ruleStalePart(r *Run) {
+	p := r.P
+	nPairs := 0
+	docField := func(chain []*types.Var) *types.Var {
+		if len(chain) == 0 || chain[0] == nil {
+			return nil
+		}
+		for _, nm := range []string{"parts"} {
+			if fieldIs(p, chain[0], pkgDoc, "Document", nm) {
+				return nil
+			}
+		}
+		if ownerNameOf(p, chain[0]) != "Document" {
+			return nil
+		}
+		return chain[0]
+	}
+	type rw struct {
+		reads, writes map[*types.Var]token.Pos
+	}
+	cache := map[*ssa.Function]*rw{}
+	summary := func(cal *ssa.Function) *rw {
+		if s, ok := cache[cal]; ok {
+			return s
+		}
+		s := &rw{map[*types.Var]token.Pos{}, map[*types.Var]token.Pos{}}
+		cache[cal] = s
+		for _, g := range sortedFuncs(p.staticReach(cal)) {
+			if !p.inModule(g) {
+				continue
+			}
+			allInstrs(g, func(in ssa.Instruction) {
+				switch x := in.(type) {
+				case *ssa.Store:
+					ch, _ := addrChain(x.Addr)
+					if f := docField(ch); f != nil {
+						if _, ok := s.writes[f]; !ok {
+							s.writes[f] = x.Pos()
+						}
+					}
+				case *ssa.MapUpdate:
+					ch, _ := addrChain(x.Map)
+					if f := docField(ch); f != nil {
+						if _, ok := s.writes[f]; !ok {
+							s.writes[f] = x.Pos()
+						}
+					}
+				case *ssa.UnOp:
+					if x.Op != token.MUL {
+						return
+					}
+					ch, _ := addrChain(x.X)
+					if f := docField(ch); f != nil {
+						if _, ok := s.reads[f]; !ok {
+							s.reads[f] = x.Pos()
+						}
+					}
+				}
+			})
+		}
+		return s
+	}
+	partProducing := map[*ssa.Function]bool{}
+	producesPart := func(cal *ssa.Function) bool {
+		if v, ok := partProducing[cal]; ok {
+			return v
+		}
+		res := false
+		fs := p.staticReach(cal)
+		fs[cal] = true
+		for g := range fs {
+			if !p.inModule(g) || res {
+				continue
+			}
+			allInstrs(g, func(in ssa.Instruction) {
+				if mu, ok := in.(*ssa.MapUpdate); ok {
+					if ch, _ := addrChain(mu.Map); len(ch) > 0 && fieldIs(p, ch[len(ch)-1], pkgDoc, "Document", "parts") {
+						res = true
+					}
+				}
+			})
+		}
+		partProducing[cal] = res
+		return res
+	}
+	// the functions in which steps are sequenced: the two entry points and every *Document method
+	// they reach (a refactoring may move the sequence into a shared helper)
+	hosts := map[*ssa.Function]bool{}
+	for _, rootName := range []string{"(*Document).Save", "(*Document).ToBytes"} {
+		root := r.mustFunc(pkgDoc, rootName)
+		if root == nil {
+			continue
+		}
+		hosts[root] = true
+		for g := range p.staticReach(root) {
+			if p.inModule(g) && len(g.Blocks) > 0 && g.Signature.Recv() != nil && len(g.Params) > 0 {
+				if pt, ok := g.Params[0].Type().Underlying().(*types.Pointer); ok && typeIs(pt.Elem(), pkgDoc, "Document") {
+					hosts[g] = true
+				}
+			}
+		}
+	}
+	for _, root := range sortedFuncs(hosts) {
+		type step struct {
+			pos token.Pos
+			cal *ssa.Function
+		}
+		var steps []step
+		allInstrs(root, func(in ssa.Instruction) {
+			c, ok := in.(*ssa.Call)
+			if !ok {
+				return
+			}
+			cal := staticCallee(c)
+			if cal == nil || !p.inModule(cal) || len(c.Call.Args) == 0 || len(root.Params) == 0 || stripLoads(c.Call.Args[0]) != ssa.Value(root.Params[0]) {
+				return
+			}
+			steps = append(steps, step{c.Pos(), cal})
+		})
+		sort.Slice(steps, func(i, j int) bool { return steps[i].pos < steps[j].pos })
+		for i, a := range steps {
+			if !producesPart(a.cal) {
+				continue
+			}
+			ra := summary(a.cal)
+			for _, b := range steps[i+1:] {
+				if b.cal == a.cal {
+					continue
+				}
+				wb := summary(b.cal)
+				nPairs++
+				bad, badPos := "", token.NoPos
+				var names []string
+				for f := range wb.writes {
+					if _, ok := ra.reads[f]; ok {
+						// a field the earlier step also writes itself (lazily created registries) is
+						// brought up to date by that step: only fields it merely reads can be stale
+						if _, own := ra.writes[f]; own {
+							continue
+						}
+						names = append(names, f.Name())
+						badPos = wb.writes[f]
+					}
+				}
+				sort.Strings(names)
+				if len(names) > 0 {
+					bad = strings.Join(names, ", ")
+				}
+				pos := b.pos
+				if bad != "" {
+					pos = badPos
+				}
+				r.Check("stale-part", fmt.Sprintf("%s:%s→%s", shortName(root), shortName(a.cal), shortName(b.cal)), pos, bad == "",
+					fmt.Sprintf("in %s, %s runs after %s has serialised its part: %s", shortName(root), shortName(b.cal), shortName(a.cal),
+						map[bool]string{true: "it writes no model field that step reads", false: "it writes Document." + bad + " (" + p.pos(badPos) + "), which " + shortName(a.cal) + " had already read — the part written by this pass is stale and the next pass writes a different one: two serialisations of the same document disagree"}[bad == ""]))
+			}
+		}
+	}
+	r.Min("ordered_serialise_step_pairs", nPairs, 3)
+}
+
+// ---------------------------------------------------------------------------
+// R-SOURCE-WHOLE (C19): the Markdown parser is handed the caller's text.  Walking back from the
+// argument of text.NewReader in the converter: the content parameter, possibly through library
+// calls and module helpers — but never through a sub-slice that starts at a COMPUTED position
+// (content[n:] with n found by searching the text).  What lies before such a position is dropped
+// before the parser sees it; a first line that looks like a delimiter is ordinary Markdown too.
+// A constant offset (a byte-order mark) is accepted.
+// ---------------------------------------------------------------------------
+
+func ruleSourceWhole(r *Run) {
+	p := r.P
+	n := 0
+	for _, fn := range p.ModFuncs() {
+		if fn.Pkg == nil || fn.Pkg.Pkg.Path() != pkgMd || len(fn.Blocks) == 0 {
+			continue
+		}
+		allInstrs(fn, func(in ssa.Instruction) {
+			c, ok := in.(*ssa.Call)
+			if !ok || calleeName(c) != "github.com/yuin/goldmark/text.NewReader" {
+				return
+			}
+			n++
+			seen := map[ssa.Value]bool{}
+			bad := token.NoPos
+			var badFn *ssa.Function
+			var visit func(v ssa.Value, depth int)
+			visit = func(v ssa.Value, depth int) {
+				if v == nil || seen[v] || depth > 12 || bad != token.NoPos {
+					return
+				}
+				seen[v] = true
+				switch x := v.(type) {
+				case *ssa.Phi:
+					for _, e := range x.Edges {
+						visit(e, depth+1)
+					}
+				case *ssa.Slice:
+					if x.Low != nil {
+						if _, isConst := constInt(x.Low); !isConst {
+							bad, badFn = x.Pos(), x.Parent()
+							return
+						}
+					}
+					visit(x.X, depth+1)
+				case *ssa.ChangeType:
+					visit(x.X, depth+1)
+				case *ssa.Convert:
+					visit(x.X, depth+1)
+				case *ssa.Extract:
+					if cc, ok := x.Tuple.(*ssa.Call); ok {
+						if cal := staticCallee(cc); cal != nil && p.inModule(cal) && len(cal.Blocks) > 0 {
+							for _, ret := range returnsOf(cal) {
+								if x.Index < len(ret.Results) {
+									visit(retResult(ret, x.Index), depth+1)
+								}
+							}
+						}
+						for _, a := range cc.Call.Args {
+							visit(a, depth+1)
+						}
+					}
+				case *ssa.Call:
+					if cal := staticCallee(x); cal != nil && p.inModule(cal) && len(cal.Blocks) > 0 {
+						for _, ret := range returnsOf(cal) {
+							if len(ret.Results) > 0 {
+								visit(retResult(ret, 0), depth+1)
+							}
+						}
+					}
+					for _, a := range x.Call.Args {
+						if _, isSlice := a.Type().Underlying().(*types.Slice); isSlice {
+							visit(a, depth+1)
+						}
+					}
+				}
+			}
+			visit(c.Call.Args[0], 0)
+			okc := bad == token.NoPos
+			pos := c.Pos()
+			where := ""
+			if !okc {
+				pos = bad
+				where = fmt.Sprintf("%s (%s)", p.pos(bad), shortName(badFn))
+			}
+			r.Check("source-whole", shortName(topLevel(fn))+":text.NewReader", pos, okc,
+				fmt.Sprintf("the text %s hands the Markdown parser: %s", shortName(topLevel(fn)), map[bool]string{true: "the caller's bytes, never cut at a computed position", false: "comes through a sub-slice starting at a computed position at " + where + " — whatever precedes that position (headings, paragraphs, lists between two '---' lines…) is dropped before parsing: the document lacks text the source has"}[okc]))
+		})
+	}
+	r.Min("parser_inputs", n, 1)
+}
+
+// ---------------------------------------------------------------------------
+// R-SLAB-WINDOW (C09): a slice carved out of a slab that is consumed piecewise in a loop
+// (w := slab[:n]; slab = slab[n:]) and kept in the model must be cut with its capacity
+// (slab[:n:n]).  Without it every window's spare capacity is the next window's storage: an append
+// to one row of a copied table (InsertColumn, AppendColumn) overwrites the first cell of the next
+// row instead of reallocating.
+// ---------------------------------------------------------------------------
+
+func ruleSlabWindow(r *Run) {
+	p := r.P
+	n, nSlices := 0, 0
+	for _, fn := range p.ModFuncs() {
+		if fn.Pkg == nil || fn.Pkg.Pkg.Path() != pkgDoc || len(fn.Blocks) == 0 {
+			continue
+		}
+		loops := naturalLoops(fn)
+		inLoopHeader := func(b *ssa.BasicBlock) bool {
+			for _, l := range loops {
+				if l.Header == b {
+					return true
+				}
+			}
+			return false
+		}
+		allInstrs(fn, func(in ssa.Instruction) {
+			sl, ok := in.(*ssa.Slice)
+			if !ok {
+				return
+			}
+			if _, isSlice := sl.X.Type().Underlying().(*types.Slice); !isSlice {
+				return
+			}
+			nSlices++
+			if sl.High == nil || sl.Max != nil {
+				return
+			}
+			// the operand is a loop-carried remainder of a slab made in this function
+			ph, ok := sl.X.(*ssa.Phi)
+			if !ok || !inLoopHeader(ph.Block()) {
+				return
+			}
+			fromMake, advanced := false, false
+			for _, e := range ph.Edges {
+				switch x := e.(type) {
+				case *ssa.MakeSlice:
+					fromMake = true
+				case *ssa.Slice:
+					if x.X == ssa.Value(ph) && x.Low != nil {
+						advanced = true
+					}
+				}
+			}
+			if !fromMake || !advanced {
+				return
+			}
+			// kept in the model: stored into a struct field (directly or as part of a composite)
+			kept := false
+			if refs := sl.Referrers(); refs != nil {
+				for _, u := range *refs {
+					if st, ok := u.(*ssa.Store); ok && st.Val == ssa.Value(sl) {
+						if _, isFA := st.Addr.(*ssa.FieldAddr); isFA {
+							kept = true
+						}
+					}
+				}
+			}
+			if !kept {
+				return
+			}
+			n++
+			r.Check("slab-window", fmt.Sprintf("%s:window#%d", shortName(fn), n), sl.Pos(), false,
+				fmt.Sprintf("%s keeps slab[:n] windows of one allocation in the model without limiting their capacity (slab[:n:n]): growing one window in place (append to a row's cells) overwrites the beginning of the next — cells the caller did not touch change", shortName(fn)))
+		})
+	}
+	r.Count("uncapped_slab_windows", n)
+	r.Min("slice_expressions_examined", nSlices, 10)
+}
+
+// ---------------------------------------------------------------------------
+// R-SINGLE-PASS (C18): on the document-template path a model object (table, row, cell, paragraph —
+// not the whole document or body, whose steps work on different sub-objects) is handed together with the template data to ONE substituting step per path.  Two such calls in
+// sequence on the same object mean the second scans text the first has already produced: a
+// supplied value that itself contains {{…}} is substituted again, so the output no longer shows
+// the value that was supplied.
+// ---------------------------------------------------------------------------
+
+func ruleSinglePass(r *Run) {
+	p := r.P
+	n := 0
+	isModelPtr := func(t types.Type) bool {
+		pt, ok := t.Underlying().(*types.Pointer)
+		if !ok {
+			return false
+		}
+		for _, nm := range []string{"Table", "Paragraph", "TableCell", "TableRow"} {
+			if typeIs(pt.Elem(), pkgDoc, nm) {
+				return true
+			}
+		}
+		return false
+	}
+	isData := func(t types.Type) bool {
+		pt, ok := t.Underlying().(*types.Pointer)
+		return ok && typeIs(pt.Elem(), pkgDoc, "TemplateData")
+	}
+	for _, fn := range p.ModFuncs() {
+		if fn.Pkg == nil || fn.Pkg.Pkg.Path() != pkgDoc || len(fn.Blocks) == 0 {
+			continue
+		}
+		type site struct {
+			c    *ssa.Call
+			obj  ssa.Value
+			data ssa.Value
+		}
+		var sites []site
+		allInstrs(fn, func(in ssa.Instruction) {
+			c, ok := in.(*ssa.Call)
+			if !ok {
+				return
+			}
+			cal := staticCallee(c)
+			if cal == nil || !p.inModule(cal) {
+				return
+			}
+			var obj, data ssa.Value
+			for _, a := range c.Call.Args {
+				if isData(a.Type()) {
+					data = a
+				} else if isModelPtr(a.Type()) && obj == nil {
+					if _, isRecv := a.Type().Underlying().(*types.Pointer); isRecv && cal.Signature.Recv() != nil && len(c.Call.Args) > 0 && a == c.Call.Args[0] {
+						continue
+					}
+					obj = a
+				}
+			}
+			if obj != nil && data != nil {
+				sites = append(sites, site{c, obj, data})
+			}
+		})
+		if len(sites) > 0 {
+			n++
+		}
+		for i, a := range sites {
+			for j, b := range sites {
+				if i == j || a.obj != b.obj || a.data != b.data {
+					continue
+				}
+				// a strictly before b on some path
+				before := false
+				if a.c.Block() == b.c.Block() {
+					before = instrIndex(a.c) < instrIndex(b.c)
+				} else {
+					before = reachableBlocks(a.c.Block(), nil)[b.c.Block()] && !(naturalLoopContains(fn, a.c.Block(), b.c.Block()))
+				}
+				if !before {
+					continue
+				}
+				r.Check("single-pass", fmt.Sprintf("%s:%s→%s", shortName(fn), shortName(staticCallee(a.c)), shortName(staticCallee(b.c))), b.c.Pos(), false,
+					fmt.Sprintf("%s hands the same object and the same template data first to %s and then to %s: the second step scans what the first has produced — a supplied value containing {{…}} (or {{#if}}) is substituted a second time", shortName(fn), shortName(staticCallee(a.c)), shortName(staticCallee(b.c))))
+			}
+		}
+	}
+	r.Min("functions_passing_model_object_with_data", n, 2)
+}
+
+// naturalLoopContains: a and b lie in one natural loop of fn (then "a reaches b" holds trivially
+// through the back edge and says nothing about one pass).
+func naturalLoopContains(fn *ssa.Function, a, b *ssa.BasicBlock) bool {
+	for _, l := range naturalLoops(fn) {
+		if l.Body[a] && l.Body[b] {
+			return true
+		}
+	}
+	return false
 }
 
 // ---------------------------------------------------------------------------
